@@ -3,6 +3,7 @@ package headers
 import (
 	"errors"
 	"fmt"
+	"math"
 	"strconv"
 	"strings"
 )
@@ -20,35 +21,33 @@ type rangeHeader struct {
 	end   int64 // -1 indicates no end
 }
 
+// Parses a non-negative decimal number that may be surrounded by whitespace.
+// endIndex is the index of the first byte after the number and its trailing whitespace.
+// ok is false if there are no digits or if the value does not fit in an int64.
 func parseRangeNumber(numStr string) (num int64, endIndex int64, ok bool) {
-	if numStr == "" {
+	i := 0
+	for i < len(numStr) && (numStr[i] == ' ' || numStr[i] == '\t') {
+		i++
+	}
+
+	digitsStart := i
+	for i < len(numStr) && numStr[i] >= '0' && numStr[i] <= '9' {
+		digit := int64(numStr[i] - '0')
+		if num > (math.MaxInt64-digit)/10 {
+			// The number does not fit in an int64
+			return 0, 0, false
+		}
+		num = num*10 + digit
+		i++
+	}
+	if i == digitsStart {
 		return 0, 0, false
 	}
 
-	if numStr[0] == '-' {
-		// Negative numbers are not allowed
-		return 0, 0, false
+	for i < len(numStr) && (numStr[i] == ' ' || numStr[i] == '\t') {
+		i++
 	}
-
-	var index int64 = 0
-	for i, ch := range numStr {
-		if ch == ' ' || ch == '\t' {
-			index++
-			continue
-		}
-
-		if ch < '0' || ch > '9' {
-			if i == 0 {
-				return 0, 0, false
-			}
-			return num, index, true
-		}
-
-		num = num*10 + int64(ch-'0')
-		index++
-	}
-
-	return num, index, true
+	return num, int64(i), true
 }
 
 func validateRange(start, end, dataSize int64) error {
@@ -71,6 +70,11 @@ func parseRangeHeader(rangeStr string) (rangeHeader, error) {
 		return rangeHeader{}, ErrInvalidRangeUnit
 	}
 
+	valuesStr = strings.TrimLeft(valuesStr, " \t")
+	if valuesStr == "" {
+		return rangeHeader{}, ErrInvalidRangeFormat
+	}
+
 	firstCh := valuesStr[0]
 	if firstCh == '-' {
 		// Suffix range: last N bytes
@@ -80,11 +84,11 @@ func parseRangeHeader(rangeStr string) (rangeHeader, error) {
 		}
 		suffixTail += 1 // To adjust for the firstCh offset
 
-		isTailSmaller := suffixTail < int64(len(valuesStr))
-		if isTailSmaller && valuesStr[suffixTail] == ',' {
-			return rangeHeader{}, ErrMultipleRangesNotSupported
-		} else if isTailSmaller && valuesStr[suffixTail] == '-' {
-			// Invalid format: -N-...
+		if suffixTail < int64(len(valuesStr)) {
+			if valuesStr[suffixTail] == ',' {
+				return rangeHeader{}, ErrMultipleRangesNotSupported
+			}
+			// Invalid format: -N-... or other trailing characters
 			return rangeHeader{}, ErrInvalidRangeFormat
 		}
 
@@ -96,12 +100,11 @@ func parseRangeHeader(rangeStr string) (rangeHeader, error) {
 		return rangeHeader{}, ErrInvalidRangeValue
 	}
 
-	middleCh := valuesStr[startTail]
-	if middleCh != '-' {
+	if startTail >= int64(len(valuesStr)) || valuesStr[startTail] != '-' {
 		return rangeHeader{}, ErrInvalidRangeFormat
 	}
 
-	if startTail+1 >= int64(len(valuesStr)) {
+	if strings.TrimLeft(valuesStr[startTail+1:], " \t") == "" {
 		// Unbounded range: start-
 		return rangeHeader{start: start, end: -1}, nil
 	}
@@ -112,8 +115,11 @@ func parseRangeHeader(rangeStr string) (rangeHeader, error) {
 	}
 	endTail += startTail + 1 // To adjust for the middleCh offset
 
-	if endTail < int64(len(valuesStr)) && valuesStr[endTail] == ',' {
-		return rangeHeader{}, ErrMultipleRangesNotSupported
+	if endTail < int64(len(valuesStr)) {
+		if valuesStr[endTail] == ',' {
+			return rangeHeader{}, ErrMultipleRangesNotSupported
+		}
+		return rangeHeader{}, ErrInvalidRangeFormat
 	}
 
 	return rangeHeader{start: start, end: end}, nil
